@@ -26,6 +26,24 @@ CLAIMS = {
               "stays in range, thresholds t*m and 10*t*m; a trace in no defect gets the empty tuple in the specification."),
         note=TB + " partial: there is no Lean model of the individual geometric validators (GEOS intersection/overlaps/is_simple/split); their verdicts are tied to the exact specification by (bounded-)exhaustive correspondence only. Configurations where two segments meet at an angle so shallow that they run alongside inside the stacking buffer (C10's STACKED window) are not crisp and are skipped (counted).",
         ref="DESIGN.md section 6 C02", technique="exact-rational defect specification in Lean + exhaustive lattice correspondence; Lean proof of the junction index arithmetic"),
+    "C03": dict(
+        text=("Proof (Lean 4) of the threshold contract between the two halves, over the regenerated window and guard expressions: for every distance d, threshold t > 0 and "
+              "multiplier m >= 1 an end that the under/overlap validator accepts is either snapped (d < t, the regenerated snap guard fires) or at least t away (d = t or "
+              "d >= t*m) -- nothing accepted is left closer than the threshold unconnected; likewise for the area boundary (E-node test or >= t*m*a away); loop bound; "
+              "I/Y/X from 1/3/4 ends. Tie: translator + stream S03: maps of isolated near-threshold features (end near an interior incl. close to the target's tip, end near "
+              "an end, end near the boundary; gaps 0..12 x snap, under/overshoot, orientations incl. axis-parallel, offsets, thresholds) filtered through the REAL Validation; "
+              "every accepted map must extract without raising, with no Error branch and consistent node degrees. F9 (mutual abutments) is the pinned known finding."),
+        note=TB + " partial: the implication 'accepted => consistent graph' for whole maps is decided per generated input by evaluating the property on the implementation's output (no Lean model of the full snapping loop); the theorem covers the per-feature threshold arithmetic only.",
+        ref="DESIGN.md section 6 C03", technique="Lean 4 theorems over regenerated threshold expressions + generate-and-filter through the real validator"),
+    "C04": dict(
+        text=("Proof (Lean 4): regenerated length filters are exactly the documented minima (trace kept iff longer than 2.01 t, branch iff longer than 1.01 t, strict), a piece "
+              "above the branch minimum of a trace above the trace minimum is never filtered; cropping conserves every additive measure piece by piece (C07). The geometric "
+              "facts are decided exactly in the driver for the implementation's branches (stream S04): every branch vertex / midpoint within t of an input trace and inside "
+              "the areas, no two branches share a collinear stretch, every sample point of every long exact clip piece within 2.02 t of a branch, and on valid maps total "
+              "branch length = exact length of traces inside the area; inputs incl. duplicates, reversed duplicates, same vertices in another order, partial stacks, V-nodes, "
+              "dangling under/overshoots, tiny traces x box / concave / holed / multipolygon / several-row areas x thresholds."),
+        note=TB + " partial: there is no Lean model of GEOS noding (union_all); NodingLaw (interior-disjoint pieces covering the snapped traces) is checked per output by the exact oracle, not proved. Extraction may raise on invalid input (RecursionError etc.); such cases are counted and skipped, as C04 promises nothing then.",
+        ref="DESIGN.md section 6 C04", technique="Lean 4 theorems over regenerated filters + exact-rational geometric checks of every output in the driver"),
     "C05": dict(
         text=("Proof (Lean 4): for ALL branch lists over any point type -- nodes duplicate-free, every end has exactly one node, every node an end, "
               "handshake sum = 2|branches|, E iff near boundary, class = fixed function of degree (regenerated degree_to_class = spec), "
@@ -34,6 +52,16 @@ CLAIMS = {
               "hand model run against the real functions on adversarial branch lists (stream S05)."),
         note=TB + " Hand-modelled, not verified: node collection order, the point query of the spatial index (assumed to return bit-identical ends), WKT-key injectivity.",
         ref="DESIGN.md section 6 C05", technique="Lean 4 theorems over regenerated decision functions + hand model with differential correspondence"),
+    "C06": dict(
+        text=("Proof (Lean 4): regenerated snap guard fires iff d < t and the end is not already on the trace (within = connected, beyond = not; an end >= t away is never "
+              "inserted), boundary ends are excluded / classed E by the same strict test; hand model of insert_point_to_linestring (after the F6 repair): an inserted vertex "
+              "sits between the two ends of the CLOSEST segment with all original vertices kept in order, a replacement only ever replaces an interior end of the closest "
+              "segment that is within the threshold, never the first or last vertex. Tie: translator + S06-insert (the real insert_point_to_linestring vs the exact model on "
+              "random polylines incl. hairpins, short/long segments, points near interiors / vertices / ends) + S06-perturbed (valid maps incl. mutually abutting, spiral, "
+              "comb families x subsets of abutments moved along/across by [-0.9,0.9] t => topology of the exact map, node within t of the contact; undershoot [1.1,40] t "
+              "=> exact arrangement of the perturbed map), both entry points, thresholds 1e-3..1e-1 relative, offsets to 1e6."),
+        note=TB + " partial: simple_snap (snapping to existing vertices) and the repeat-until-stable loop are not modelled in Lean; they are covered by S06-perturbed only.",
+        ref="DESIGN.md section 6 C06", technique="Lean 4 theorems over a hand model of vertex insertion and regenerated guards + function-level and end-to-end differential correspondence"),
     "C07": dict(
         text=("Proof (Lean 4) over a hand model of crop_to_target_areas + dissolve_multi_part_traces, generic in attribute type, geometry type, clip function "
               "and length filter: the output is, as a multiset of rows, exactly every long clip piece of every input row with that row's attributes "
@@ -77,6 +105,16 @@ CLAIMS = {
               "exact squared distances in the driver."),
         note=TB + " partial: the detectors' geometry (split, buffer, segmentize) is not modelled; SHARP TURNS and the triangle detector are not swept. F5 and F14 (stacking detection depended on float rounding; never for axis-parallel traces) were genuine defects here and are repaired.",
         ref="DESIGN.md section 6 C10", technique="Lean 4 theorems over regenerated window expressions + orientation/position/magnitude sweep against exact distances"),
+    "C11": dict(
+        text=("Proof (Lean 4, exact rationals): squared distance is invariant under translations and the 8 lattice symmetries and scales by k^2 (so d < t is unchanged when map and "
+              "threshold are scaled together), orientation is translation-invariant, scales by k^2 and only changes sign under mirror symmetries, hence collinearity / "
+              "on-segment / intersection tests are invariant under the whole group; node set, node classes and branch labels are invariant under permuting and reversing "
+              "branches; the published parameters scale as k^dim (intensities 1/k, frequencies 1/k^2, mean lengths k, dimensionless and counts unchanged) via C08. "
+              "Tie: stream S11 runs whole orbits through the implementation: valid maps under row permutation + reversal, decorations (Z, CRS, extra columns, string "
+              "index), lattice symmetries, dyadic translations to 2^21, power-of-two scalings with the threshold (counts equal, parameters scaled), and planted-defect "
+              "frames (incl. traces with several junction defects) whose verdicts must move with their rows. F8 (absolute tolerances) and F12 (package-named columns) are known findings."),
+        note=TB + " partial: equivariance of the whole contact oracle is not proved (only its primitive predicates); the orbit correspondence carries it.",
+        ref="DESIGN.md section 6 C11", technique="Lean 4 invariance lemmas for the geometric primitives + scaling law of the parameters + orbit correspondence"),
     "C12": dict(
         text=("Proof (Lean 4) over a hand model of determine_crosscut_abutting_relationships: the row of a pair of sets mentions only those two sets, so adding "
               "sets anywhere in the list (incl. empty ones) neither changes nor removes a row (C12_rows_independent, via sublist-monotonicity of combinations); "
